@@ -7,7 +7,8 @@
    the request" = the prefix `pre`. *)
 From Coq Require Import List NArith ZArith.
 From CliUtils Require Import Model.ActuationTable Model.PipelineTypes Model.Pipeline
-     Proofs.PipelineBase Proofs.PipelineAuth Proofs.PipelineOrder.
+     Proofs.PipelineBase Proofs.PipelineAuth Proofs.PipelineOrder Proofs.PipelineOrphansRun Proofs.PipelineOrderPlan
+     Corr.CorrPipeline Proofs.PipelineOrderMon.
 Import ListNotations.
 
 (* when an apply request (create or patch) for d reaches the server, every
@@ -88,6 +89,48 @@ Theorem C04_blocked_end_of_run_partial : forall sc c0 pl locals, run_plan sc c0 
   forall r ok m st, In (IReq r ok m st) t -> ~ ((exists f, r = RCreate d f) \/ (exists a f, r = RPatch d a f)).
 Proof. exact apply_blocked_end_of_run. Qed.
 
+(* blocked dependents, end-of-run form, for well-formed scenarios (`WF`: the
+   manifest names each object once, ... see Proofs/PipelineOrphansRun.v; only its
+   first clause is used): if a dependency e of d is bad at the END of the run --
+   invalid, or not an apply object, or some Failed / Skipped apply event of e
+   occurs anywhere in the trace, or (outside dry-run) the last wait event of e in
+   the whole trace is Failed / Timeout / Skipped -- then no apply request for d
+   occurs anywhere in the trace *)
+Theorem C04_blocked : forall sc c0 pl locals, WF sc c0 -> run_plan sc c0 = Some (pl, locals) ->
+  forall d e, In e (g_deps (pl_graph pl) d) ->
+  (In e (pl_invalid pl) \/ ~ In e (map p_id (pl_apply pl)) \/
+   (exists g, In (IEv (EApply g e AFail)) (out_trace (run sc c0)) \/ In (IEv (EApply g e ASkip)) (out_trace (run sc c0))) \/
+   (o_dry (sc_opts sc) = DNone /\
+    exists w, last_wait_is (out_trace (run sc c0)) e w /\ (w = WFailed \/ w = WTimedOut \/ w = WSkipped))) ->
+  forall r ok m st, In (IReq r ok m st) (out_trace (run sc c0)) ->
+  ~ ((exists f, r = RCreate d f) \/ (exists a f, r = RPatch d a f)).
+Proof. exact apply_blocked. Qed.
+
+(* the two trace facts behind it *)
+Theorem C04_one_result_event_per_object : forall sc c0 pl locals,
+  (o_destroy (sc_opts sc) = false -> NoDup (map l_id (sc_local sc))) -> run_plan sc c0 = Some (pl, locals) ->
+  forall x y e, In x (out_trace (run sc c0)) -> In y (out_trace (run sc c0)) ->
+    res_of x = Some e -> res_of y = Some e -> x = y.
+Proof. exact run_unique_result. Qed.
+
+(* the executable monitor that the correspondence harness evaluates on the real
+   implementation's traces (Corr/CorrPipeline.v) holds on the model's run *)
+Theorem C04_monitor : forall sc c0, WF sc c0 -> mon_C04 sc c0 (run sc c0) = true.
+Proof. exact mon_C04_holds. Qed.
+
+(* the hypotheses are satisfiable: the blocked run of the example below is well-formed *)
+Example C04_wf_nonvacuous :
+  WF (mkSc [mkU KNs None None; mkU KPlain None None; mkU KPlain (Some 0) None] None
+           [mkL 0 [] false false false 1; mkL 2 [] false false false 1]
+           (mkO false true PAdoptAll DNone VSkipInvalid false true true false PropBackground false)
+           (mkE [FApply 0] [] CNever None))
+     (mkCl [] None 5%N).
+Proof.
+  unfold WF. cbn. repeat split; try (intros; contradiction); try discriminate.
+  - intros _. repeat constructor; cbn; intuition discriminate.
+  - constructor.
+Qed.
+
 (* U1 needs distinct manifest ids: with the same id twice in the manifest the
    first attempt can fail and the second succeed, and the unconditional
    end-of-run form is false for the model *)
@@ -136,3 +179,6 @@ Print Assumptions C04_blocked_partial.
 Print Assumptions C04_blocked_at_request_partial.
 Print Assumptions C04_blocked_static.
 Print Assumptions C04_blocked_end_of_run_partial.
+Print Assumptions C04_blocked.
+Print Assumptions C04_one_result_event_per_object.
+Print Assumptions C04_monitor.
